@@ -36,7 +36,7 @@ BOUNDS = (f"resource bound of G (measured by harness-side counters, inputs above
           f"(no self-inclusion), <= {c08run.MAX_OPERATORS} operators per expression, .align <= {c08run.MAX_ALIGN}")
 RULE = ("(proof part) wait-model cases: seeded random graphs of 1-12 deferred objects (settled to an int / settled to another object / "
         "fn over 0-3 dependencies returning c+sum or another object / unsettled Promise), cyclic with probability ~1/2, plus fixed shapes "
-        "(a=a, mutual, forwarding rings, a 1001-long forwarding chain against the `len(seen) >= 1000` bound), 1-4 wait() calls each, speculative or not; "
+        "(a=a, mutual, forwarding rings, forwarding chains of N-2..N+1 objects against the `len(seen) >= N` bound of wait(), N read from the source), 1-4 wait() calls each, speculative or not; "
         "the real Deferred/Promise objects are driven through the internal API and value / exception class / is_awaiting flags / settled flags are "
         "compared with Model.WaitModel in coqc; non-trivial = distinct graph with >= 1 fn node. "
         "(exploration part) texts from six streams of tools/c08gen.py, all seeded: valid (proggen grammar-G programs, 1-3 files), wide (every mnemonic of "
@@ -52,7 +52,7 @@ ASSUME = ["CPython 3.12 semantics of int, str, struct, chr, open as read by the 
           BOUNDS]
 LEVEL_TEXT = ("PARTIAL by nature. Proved in Coq (all closed under the global context): the lazy-evaluation core of deferred.py as a fuelled model "
               "terminates for every finite graph with an explicit fuel bound, restores every is_awaiting flag on every exit path, reports DeferredCycle only when "
-              "a cycle (or a >= 1000-long forwarding chain) is reachable, returns the unique solution of the dependency equations, and gives every closed acyclic "
+              "a cycle (or a forwarding chain as long as the `seen` bound) is reachable, returns the unique solution of the dependency equations, and gives every closed acyclic "
               "graph a value; the Python partial operations reachable from input (% and // by zero, struct.pack ranges after get_as_int, TABLE.index, chr, "
               "int(s, base), 2**b, dict lookups by pattern letter) cannot raise under the guards the code has now. The model is tied to the source by regenerated "
               "Gen files / pinned source shapes and by model-vs-implementation runs on random graphs. NOT proved: the parser and the statement compiler as a whole; "
@@ -99,7 +99,16 @@ def _pmap_padded(fn, jobs, pad):
 
 # ---------------------------------------------------------------------------------------------
 # proof part: WaitModel against the real deferred objects
+def seen_bound():
+    """the literal of deferred.wait as the translator pinned it (Gen/GenPartial.v)"""
+    import re
+    with open(os.path.join(C.COQ, "Gen", "GenPartial.v"), encoding="utf-8") as f:
+        m = re.search(r"Definition wait_seen_bound : nat := (\d+)%nat", f.read())
+    return int(m.group(1)) if m else 1000
+
+
 def gen_wait_cases(rng, n):
+    bound = seen_bound()
     cases = []
     fixed = [
         ([("fn", [], 0, 0)], [(0, False)]),                                   # a = a
@@ -113,8 +122,8 @@ def gen_wait_cases(rng, n):
         ([("fn", [1], 0, None), ("fn", [2], 0, None), ("fn", [3], 0, None), ("fn", [1], 0, None)], [(0, False), (3, False)]),
     ]
     cases += fixed
-    # the len(seen) >= 1000 bound: forwarding chains of 999 / 1000 / 1001 objects ending in a constant
-    for ln in (998, 999, 1000, 1001):
+    # the `len(seen) >= N` bound: forwarding chains of N-2 .. N+1 objects ending in a constant
+    for ln in (bound - 2, bound - 1, bound, bound + 1):
         specs = [("constf", k + 1) for k in range(ln)] + [("const", 7)]
         cases.append((specs, [(0, False), (1, False), (ln - 3, False)]))
     while len(cases) < n:
